@@ -283,7 +283,7 @@ Qed.
 From Bio.Model Require Smtext.
 Theorem imp_extractSingleChar s :
   imp_smtext_extractSingleChar s
-  = match Smtext.extract_single_char s with Ok b => Ret (b, false) | _ => Ret (0%N, true) end.
+  = match Smtext.extract_single_char s with Ok b => Ret (b, 0) | _ => Ret (0%N, 2) end.
 Proof.
   unfold imp_smtext_extractSingleChar, Smtext.extract_single_char, Smtext.GAP.
   destruct s as [|c [|d r]].
